@@ -70,6 +70,6 @@ contract(RSL + ".read_lines", params={}, yields=Str, self_type=RawLines,
     loops={0: {"invariant": ["_seq0 == %s" % PARTS, "len(__yielded__) == n_nonblank(%s, _i0)" % PARTS,
                              "forall(Int, lambda k: implies(0 <= k and k < _i0 and not in_re(%s[k], 'ascii_blank'), __yielded__[n_nonblank(%s, k)] == %s[k]))" % ((PARTS,) * 3),
                              "forall(Int, lambda k: implies(0 <= k and k < _i0, 0 <= n_nonblank(%s, k) and n_nonblank(%s, k) <= n_nonblank(%s, k + 1) and n_nonblank(%s, k + 1) <= n_nonblank(%s, _i0)))" % ((PARTS,) * 5)]}},
-    axioms_of=["n_nonblank"], props=["C06", "C08", "C01"],
+    axioms_of=["n_nonblank"], props=["C06", "C08", "C01", "C02", "C03", "C07", "C09", "C10", "C12", "C13", "C14"],
     note="the statements delivered from a raw string are exactly the non-blank pieces between LINE FEED characters, in order: no other character "
          "(U+2028, U+0085, FF, VT ... all legal inside an N-Triples/Turtle literal) ends a line, nothing is dropped, merged or reordered")
